@@ -39,6 +39,10 @@ pub struct LazyCase {
     pub early: Vec<(u8, u8)>,
     /// requests after the handshake: host variants
     pub later: Vec<u8>,
+    /// the client sends no server name (and, as always here, no ALPN): the connection's TLS
+    /// information is all-default, yet it is a TLS connection without a server name - nothing is forwarded
+    #[serde(default)]
+    pub no_sni: bool,
 }
 
 /// (Host header, URI, HTTP version) of variant `v` for server name `name`; and whether the host equals the name
@@ -94,7 +98,9 @@ impl Engine for LazySniEngine {
                 });
                 let (client, incoming) = hyperdriver::stream::duplex::pair();
                 let acceptor = hyperdriver::server::conn::Acceptor::from(incoming).with_tls(Arc::new(server_config(0, 0, Default::default())));
-                let mut transport = DuplexTransport::new(64 * 1024, client).with_tls(Arc::new(client_config(0)));
+                let mut ccfg = client_config(0);
+                ccfg.enable_sni = !c2.no_sni;
+                let mut transport = DuplexTransport::new(64 * 1024, client).with_tls(Arc::new(ccfg));
                 let uri = format!("https://{name}");
                 let client = tokio::spawn(async move { transport.connect(uri.as_str().into_request_parts()).await.map_err(|e| e.to_string()) });
                 let mut conn = match tokio::time::timeout(Duration::from_secs(5), acceptor.accept()).await {
@@ -184,7 +190,8 @@ impl Engine for LazySniEngine {
         let seen = seen.lock().unwrap().clone();
         for (tag, v, r) in &out {
             let (host, uri, _, equal) = variant(name, *v);
-            let desc = format!("{c:?}: request #{tag} (Host {host:?}, URI {uri}) on a connection whose server name is {name:?}");
+            let equal = equal && !c.no_sni;
+            let desc = format!("{c:?}: request #{tag} (Host {host:?}, URI {uri}) on a connection whose server name is {}", if c.no_sni { "absent".to_string() } else { format!("{name:?}") });
             let app = seen.iter().find(|(t, _)| t == tag).map(|(_, m)| *m);
             match (equal, r) {
                 (true, Ok(())) => match app {
@@ -205,6 +212,7 @@ impl Engine for LazySniEngine {
         for (t, mark) in &seen {
             let v = if *t < c.early.len() { c.early[*t].0 } else { c.later.get(*t - c.early.len()).copied().unwrap_or(0) };
             let (_, _, _, equal) = variant(name, v);
+            let equal = equal && !c.no_sni;
             if !equal {
                 rep.violate("C20/lazy-handshake/forwarded-despite-mismatch", format!("{c:?}: the application saw request #{t} of another host (mark {mark:?}) on a connection whose server name is {name:?}"));
             } else if *mark != Some(true) {
@@ -219,11 +227,14 @@ impl Engine for LazySniEngine {
         if c.early.iter().any(|(_, f)| f % 3 == 1) {
             rep.class("request-waits-for-handshake");
         }
-        if out.iter().any(|(_, v, _)| !variant(name, *v).3) {
+        if out.iter().any(|(_, v, _)| !variant(name, *v).3 || c.no_sni) {
             rep.class("expect-reject");
         }
-        if out.iter().any(|(_, v, _)| variant(name, *v).3) {
+        if out.iter().any(|(_, v, _)| variant(name, *v).3 && !c.no_sni) {
             rep.class("expect-forward");
+        }
+        if c.no_sni {
+            rep.class("tls-connection-without-server-name");
         }
         rep.nontrivial = abandoned && !c.later.is_empty();
         rep.total_ops = (c.early.len() + c.later.len()) as u64;
@@ -245,5 +256,5 @@ where
 
 pub fn strategy() -> impl proptest::strategy::Strategy<Value = LazyCase> {
     use proptest::prelude::*;
-    (0u8..NAMES.len() as u8, proptest::collection::vec((0u8..6, 0u8..3), 0..4), proptest::collection::vec(0u8..6, 0..5)).prop_map(|(sni, early, later)| LazyCase { sni, early, later })
+    (0u8..NAMES.len() as u8, proptest::collection::vec((0u8..6, 0u8..3), 0..4), proptest::collection::vec(0u8..6, 0..5), prop_oneof![4 => Just(false), 1 => Just(true)]).prop_map(|(sni, early, later, no_sni)| LazyCase { sni, early, later, no_sni })
 }
